@@ -189,7 +189,8 @@ class EventSeriesClimateNetwork(EventSeries, ClimateNetwork):
         elif self.__method in ['ES_pval', 'ECA_pval']:
             measure_matrix = \
                 self.event_analysis_significance(
-                    method=self.__method, **ES_significance_kwargs)
+                    method=self.__method[:-len('_pval')],
+                    **ES_significance_kwargs)
 
         ClimateNetwork.__init__(self, grid=data.grid,
                                 similarity_measure=measure_matrix,
